@@ -2,9 +2,14 @@
 # runs every registered check once (tier $1, default quick) and prints one line each
 cd "$(dirname "$0")/.."
 tier=${1:-quick}
+# optional: ids to run first (the rest follow in order), e.g. ./tools/sweep.sh thorough C12 C17
+shift
+first="$*"
 for p in $(python3 -c "
 import sys; sys.path.insert(0,'tools'); import registry
-print(' '.join(sorted(registry.REGISTRY)))"); do
+first='$first'.split()
+rest=[p for p in sorted(registry.REGISTRY) if p not in first]
+print(' '.join([p for p in first if p in registry.REGISTRY]+rest))"); do
   s=$(date +%s)
   out=$(./check $p --tier $tier 2>&1)
   rc=$?
